@@ -38,4 +38,10 @@ C14-mark-full-from-highest-free C14 c14_tracker_alloc_path
 C10-root-collapse-deferred-checksum C10 c10_leaf_build_vv
 C19-str-separator-cut-inside-char C19 c19_str_separator_routes_in_v3
 C11-load-allocator-state-region-range C11 c11_mark_page_allocated_n13
+C01-select-slot-2pc-only-when-corrupt C01 c12_select_slot_table
+C15-varint-65536-wraps C15 c15_varint_roundtrip
+C20-close-flags-after-backend-close C20 c20_close_exactly_once
+C12-verify-skips-last-child C12 c12_verify_every_child_checked
+C14-resize-to-truncate-before-mark-full C14 c14_resize_to
+C04-large-value-sibling-order C04 c04_leaf_insert_vv_at0
 LIST
